@@ -134,7 +134,7 @@ def main(argv):
         only = argv[argv.index('--only') + 1]
     verbose = '-v' in argv
     jobs = int(argv[argv.index('-j') + 1]) if '-j' in argv else default_jobs()
-    metas = [m for m in all_metas() if (not prop or m['property'] == prop) and (not only or only in m['_name'])]
+    metas = [m for m in all_metas() if (not prop or m['property'] == prop) and (not only or any(o in m['_name'] for o in only.split(',')))]
     bad = 0
     res = []
     for name, st, info in run_many(metas, jobs=jobs, verbose=verbose):
